@@ -404,7 +404,7 @@ type ref struct {
 	class string
 }
 
-func skip(class string) ref        { return ref{judge: false, class: class} }
+func skip(class string) ref                 { return ref{judge: false, class: class} }
 func judge(w interface{}, class string) ref { return ref{want: w, judge: true, class: class} }
 
 func truncToInt(f float64) (int64, bool) {
